@@ -1297,6 +1297,30 @@ func (r *raft) removeNode(replicaID uint64) {
 			r.broadcastReplicateMessage()
 		}
 	}
+	if r.isLeader() && r.isSingleNodeQuorum() && r.readIndex.hasPendingRequest() {
+		r.releasePendingReadIndexes()
+	}
+}
+
+// releasePendingReadIndexes releases all pending ReadIndex requests. It is
+// invoked when the leader has just become the only voting member of the shard,
+// there is no other voting member left to confirm those requests by its
+// heartbeat response and later requests are answered without being queued.
+func (r *raft) releasePendingReadIndexes() {
+	ris := r.readIndex.confirm(r.readIndex.peepCtx(), r.replicaID, 1)
+	for _, s := range ris {
+		if s.from == NoNode || s.from == r.replicaID {
+			r.addReadyToRead(s.index, s.ctx)
+		} else {
+			r.send(pb.Message{
+				To:       s.from,
+				Type:     pb.ReadIndexResp,
+				LogIndex: s.index,
+				Hint:     s.ctx.Low,
+				HintHigh: s.ctx.High,
+			})
+		}
+	}
 }
 
 func (r *raft) deleteRemote(replicaID uint64) {
